@@ -140,7 +140,7 @@ def write_evidence(rep: Report, new_violations: int, known_occurrences: int) -> 
         "violations": new_violations,
     }
     # runs against a scratch copy (self-tests with VERIF_REPO) must not overwrite the evidence of the real tree
-    d = VERIF / "evidence" if ("VERIF_REPO" not in os.environ and rep.prop != "selftest") else VERIF / ".work" / "evidence_scratch"
+    d = VERIF / "evidence" if ("VERIF_REPO" not in os.environ and rep.prop != "selftest") else tlc.WORK.parent / "evidence_scratch"
     d.mkdir(parents=True, exist_ok=True)
     (d / f"{rep.prop}.json").write_text(json.dumps(ev, indent=1, default=str) + "\n")
 
